@@ -179,3 +179,89 @@ def fresh_rule(ctx, rep, rid="FRESH"):
                                   % (inst.label, b.name.split("::parser::")[-1], sorted(vals)), site(b, pt), flow.describe_path(b, path))
     rep.count("closes inside loops that use a kind variable", n)
     rep.floor(rid, 10, "closes in loops")
+
+
+# -------------------------------------------------------------------------------------------------
+# N1: typestate of node marks in generated code (C02)
+# -------------------------------------------------------------------------------------------------
+def typestate_rule(ctx, rep, rid="N1"):
+    rep.rule(rid, "TS: in every generated rule function (and attempt closure) each mark returned by Parser::open / Parser::open_before is passed to "
+                  "exactly one Parser::close / close_root on every path to a normal return (`()` or `Some(())`) and before the same open executes "
+                  "again, and to at most one on a path that fails with `None` (the node is then truncated with the attempt): no node is left open, "
+                  "and none is closed twice")
+    n = 0
+    for inst in ctx.instances(with_corpus=True):
+        bodies = []
+        for rule, b in inst.all_rule_bodies():
+            bodies.append(b)
+        for b in bodies:
+            pr = P(b)
+            is_opt = b.ret_ty().startswith("std::option::Option")
+            opens = [(pt, t) for pt, name, decl, args, t in calls(b) if name.endswith("Parser::open") or name.endswith("Parser::open_before")]
+            for pt, t in opens:
+                d = t["dest"]
+                if d["p"]:
+                    continue
+                m = d["l"]
+                n += 1
+                open_e = pr.call_expr(t)
+
+                def is_close(it):
+                    if not (isinstance(it, dict) and it.get("t") == "call"):
+                        return False
+                    ce = pr.call_expr(it)
+                    if not (ce[1].endswith("Parser::close") or ce[1].endswith("Parser::close_root")):
+                        return False
+                    a = ce[2][1] if len(ce[2]) > 1 else None
+                    if a is None:
+                        return False
+                    if a[0] == "call" and a[1] == open_e[1] and a[4] == open_e[4]:
+                        return True
+                    return a[0] == "local" and a[1] == m
+                start = t["to"]
+                if start is None:
+                    continue
+                seen = set()
+                st = [(start, 0, None)]
+                bad = None
+                while st and bad is None:
+                    blk, cnt, ret = st.pop()
+                    if (blk, cnt, ret) in seen:
+                        continue
+                    seen.add((blk, cnt, ret))
+                    if blk == pt[0]:
+                        if cnt != 1:
+                            bad = ("the same open executes again", cnt, blk)
+                        continue
+                    for p, it in flow.points(b, blk):
+                        if isinstance(it, dict) and "rv" in it and it["a"] == {"l": 0, "p": []}:
+                            e = pr.rvalue(it["rv"])
+                            if e[0] == "agg" and e[1][0] == "adt":
+                                ret = e[1][2]
+                        if isinstance(it, dict) and it.get("t") == "call" and it["dest"] == {"l": 0, "p": []}:
+                            nm = pr.call_expr(it)[1]
+                            if nm.endswith("from_residual"):
+                                ret = "None"
+                        if is_close(it):
+                            cnt = min(cnt + 1, 3)
+                    tt = b.blocks[blk]["t"]
+                    if tt["t"] == "return":
+                        if is_opt and ret == "None":
+                            if cnt > 1:
+                                bad = ("a failing return", cnt, blk)
+                        elif cnt != 1:
+                            bad = ("a normal return", cnt, blk)
+                        continue
+                    for s in b.succ(blk):
+                        st.append((s, cnt, ret))
+                fn = b.name.split("::parser::")[-1]
+                if bad:
+                    rep.violation(rid, "%s|%s|%s" % (inst.label, fn, "unclosed" if bad[1] == 0 else "closed-%d-times" % bad[1]),
+                                  "%s: in %s the node opened at %s is closed %d time(s) on a path to %s: %s" % (
+                                      inst.label, fn, site(b, pt).rsplit("/", 1)[-1], bad[1], bad[0],
+                                      "the node stays a placeholder and its extent is never set" if bad[1] == 0 else "the second close overwrites the first node's kind and extent"),
+                                  site(b, pt))
+                else:
+                    rep.ok(rid, "%s %s: mark opened at %s closed exactly once" % (inst.label, fn, site(b, pt).rsplit("/", 1)[-1]))
+    rep.count("marks followed", n)
+    rep.floor(rid, 400, "marks")
